@@ -16,6 +16,7 @@ from translate import c06_vmf as T
 from translate import c06_prog as P
 from translate import c06_lite as L
 from translate import c06_ids as IDS
+from translate import c06_alias as AL
 from translate import c01_kvser
 
 MANIFEST = dict(
@@ -99,7 +100,7 @@ def required_class(block: str, key: str, idx: int) -> str:
 
 IMPORTS = ['Coq.NArith.NArith', 'Coq.ZArith.ZArith', 'Coq.Lists.List', 'Coq.Strings.String', 'SV.KV.KvBase', 'SV.Fmt.VmfText',
            'SV.Fmt.VmfBlocks', 'SV.Gen.VmfTemplates_gen', 'SV.Gen.VmfKeys_gen', 'SV.Gen.VmfDispSizes_gen', 'SV.Gen.VmfOrder_gen',
-           'SV.Gen.VmfProg_gen', 'SV.Fmt.VmfFields', 'SV.Gen.VmfFieldsCfg_gen', 'SV.Fmt.VmfNum', 'SV.Gen.VmfNumFmt_gen', 'SV.Fmt.VmfGuard', 'SV.Fmt.VmfLite', 'SV.Gen.VmfLite_gen', 'SV.Fmt.VmfFlags', 'SV.Gen.VmfFlags_gen', 'SV.Fmt.VmfTok', 'SV.Fmt.VmfPlane', 'SV.Fmt.VmfIds', 'SV.Gen.VmfIds_gen', 'SV.Fmt.VmfTree', 'SV.Fmt.VmfSets', 'SV.Gen.VmfSets_gen', 'SV.Fmt.VmfViewport', 'SV.Gen.VmfViewport_gen', 'SV.KV.KvSym', 'SV.Gen.KVSer_gen', 'SV.Props.C06']
+           'SV.Gen.VmfProg_gen', 'SV.Fmt.VmfFields', 'SV.Gen.VmfFieldsCfg_gen', 'SV.Fmt.VmfNum', 'SV.Gen.VmfNumFmt_gen', 'SV.Fmt.VmfGuard', 'SV.Fmt.VmfLite', 'SV.Gen.VmfLite_gen', 'SV.Fmt.VmfFlags', 'SV.Gen.VmfFlags_gen', 'SV.Fmt.VmfTok', 'SV.Fmt.VmfPlane', 'SV.Fmt.VmfIds', 'SV.Gen.VmfIds_gen', 'SV.Fmt.VmfTree', 'SV.Fmt.VmfSets', 'SV.Gen.VmfSets_gen', 'SV.Fmt.VmfViewport', 'SV.Gen.VmfViewport_gen', 'SV.Fmt.VmfAlias', 'SV.Gen.VmfAlias_gen', 'SV.KV.KvSym', 'SV.Gen.KVSer_gen', 'SV.Props.C06']
 PRE = '''Import ListNotations. Open Scope string_scope.
 Fixpoint nl_eqb (a b : list N) : bool := match a, b with [], [] => true | x :: a', y :: b' => N.eqb x y && nl_eqb a' b' | _, _ => false end.
 Fixpoint bad_idx {A} (f : A -> bool) (n : N) (l : list A) : list N := match l with [] => [] | x :: r => (if f x then [] else [n]) ++ bad_idx f (n + 1)%N r end.
@@ -1045,7 +1046,7 @@ def search(ck: Ck) -> None:
     # quick: 200 maps (450 until round 3, 240 until round 4; lowered to keep the quick tier below 90 s on a heavily loaded machine now that the proof side
     # has 140 more obligations and four more correspondences; the directed corpus and the shipped files run first in any case);
     # quick with a broken tie: 2000; thorough: 7500
-    n = 7500 if ck.thorough else ck.budget(200, 2000)
+    n = 7500 if ck.thorough else ck.budget(170, 2000)
     found: dict[str, tuple[dict, str, dict]] = {}
     # Shrinking budget, counted in oracle evaluations (not wall time, so that results are reproducible): per violation key
     # and in total.  A fault in a hot path produces dozens of keys on big maps; the total keeps a failing run within minutes.
@@ -1117,7 +1118,7 @@ def search(ck: Ck) -> None:
         consider(spec, f'random #{i}')
     # histories (round 5): build -> export -> parse -> edits through the public API -> export -> parse, starting from parsed maps
     # in which the containers the API adds to are mostly empty; compared with the same edits on the map built through the API
-    n_hist = 2500 if ck.thorough else ck.budget(100, 700)
+    n_hist = 2500 if ck.thorough else ck.budget(80, 700)
     for i in range(n_hist):
         spec = U.gen_history_spec(ck.rng)
         ck.count('generated_histories')
@@ -1176,11 +1177,11 @@ def run(ck: Ck) -> None:
         'str.split, str.join, int() on digit strings and str.casefold behave as modelled (split_on, join, parse_digits; casefold enters '
         'the theorems as the section variables is_inst / same_var)',
     ]
-    oks = [ck.translate(name, fn) for name, fn in {**T.GEN, **P.GEN, **L.GEN, **IDS.GEN}.items()]
+    oks = [ck.translate(name, fn) for name, fn in {**T.GEN, **P.GEN, **L.GEN, **IDS.GEN, **AL.GEN}.items()]
     # C01's generated parser sites (read-only use of C01's translator): premise pcfg_ok of the block theorem
     oks.append(ck.translate('KVSer_gen', c01_kvser.translate))
     tr = ck.extra.get('translated', {})
-    built = all(oks) and ck.build(['Gen/KVSer_gen.vo', 'Gen/VmfIds_gen.vo', 'Gen/VmfSets_gen.vo', 'Gen/VmfViewport_gen.vo', 'Props/C06.vo'])
+    built = all(oks) and ck.build(['Gen/KVSer_gen.vo', 'Gen/VmfIds_gen.vo', 'Gen/VmfSets_gen.vo', 'Gen/VmfViewport_gen.vo', 'Gen/VmfAlias_gen.vo', 'Props/C06.vo'])
     if built:
         ck.theorems('Props/C06.v')
         obs: dict[str, str] = {}
@@ -1262,6 +1263,18 @@ def run(ck: Ck) -> None:
         obs['parse_hands_preserve_ids_on'] = 'gen_parse_passes_preserve'
         for c, idp in sorted(idm.get('programs', {}).items()):
             ck.hist('id_manager_paths', c, len(idp))
+        # aliases (round 5): for every function that hands out a map and every alias pair the constructor establishes, the two access
+        # paths hold the same object in every world (identity, on every path, the empty case included); the attributes named in a
+        # pair are rebound only where a map is made and in constructors
+        ali = tr.get('VmfAlias_gen', {})
+        for r in ali.get('rows', []):
+            nm = f"alias_identity:{r['fn']}:{r['left']}=={r['right']}"       # one obligation for all returns of the function
+            obs[nm] = (f'forallb row_ok (filter (fun r => andb (String.eqb (ar_left r) "{r["left"]}") (String.eqb (ar_right r) "{r["right"]}")) '
+                       f'(rows_of "{r["fn"]}" gen_alias_rows))')
+            ck.hist('alias_rows', f"{r['fn']}:{r['left']}=={r['right']}:" + ('same expression' if r['same_text'] else 'different expressions'))
+        obs['alias_pairs_established_by_every_maker'] = 'alias_table_ok gen_alias_makers gen_alias_pairs gen_alias_rows'
+        obs['alias_attributes_rebound_only_by_makers_and_constructors'] = (
+            'forallb (fun s => existsb (String.eqb (fst s)) gen_alias_may_rebind) gen_alias_rebinds')
         obs['output_field_count_and_recombination'] = '(Nat.eqb gen_out_exact_fields 5 && Nat.eqb gen_out_recombine_from 6)%bool'
         obs['output_field_order_agrees'] = ('(nlist_eqb gen_out_write_order (0 :: 1 :: 2 :: 3 :: 4 :: nil)%N && nlist_eqb gen_out_read_order (0 :: 1 :: 2 :: 3 :: 4 :: nil)%N)%bool')
         # the hypotheses of the composed statement c06_property hold for what was generated from today's source (the example the
@@ -1270,7 +1283,7 @@ def run(ck: Ck) -> None:
         obs['property_hypotheses_hold_for_todays_source'] = (
             '(table_ok vmf_nums vmf_progs && pcfg_ok gen_parsecfg && forallb lite_paired lite_classes && '
             f'forallb (kind_ok gen_id_classes gen_id_managers gen_id_sites) ({kinds}) && member_loops_ok gen_member_loops && '
-            'vp_ok gen_vp_tiers gen_vp_tbl gen_vp_inv)%bool')
+            'vp_ok gen_vp_tiers gen_vp_tbl gen_vp_inv && alias_table_ok gen_alias_makers gen_alias_pairs gen_alias_rows)%bool')
         res = ck.instance_obligations(IMPORTS, obs, name='c06')
         if not all(res.values()):
             ck.tie_broken.append('instance obligations failed: ' + ', '.join(k for k, v in res.items() if not v))
@@ -1282,6 +1295,15 @@ def run(ck: Ck) -> None:
                       f'{sorted(s1 ^ s2)[:4]}')
         if s1 != s2:
             ck.tie_broken.append('program translator and template translator disagree on the written lines')
+        # the alias table the object-level translator uses (c06_lite.ALIAS_ATTRS: attribute -> the attribute whose object it is part of)
+        # must be what the constructors establish today (discovered by symbolic execution, c06_alias.py)
+        disc: dict[str, dict[str, str]] = {}
+        for cname, a, b in ali.get('pairs', []):
+            disc.setdefault(cname, {})[a] = b.split('.')[0]
+        ck.obligation('tie:alias_table_is_what_the_constructors_establish', disc == L.ALIAS_ATTRS,
+                      f'discovered {ali.get("pairs")}, hand table {L.ALIAS_ATTRS}')
+        if disc != L.ALIAS_ATTRS:
+            ck.tie_broken.append('the alias pairs the constructors establish are not the hand table of c06_lite.py')
         guarded(ck, 'escape_scanner', corr_escape, ck)
         guarded(ck, 'rounding', corr_rounding, ck)
         guarded(ck, 'output_fixup', corr_output_fixup, ck)
@@ -1357,13 +1379,18 @@ def run(ck: Ck) -> None:
         ck.explain('instance:viewport_axis_tables_agree')
         ck.explain('correspondence:viewport_axis')
         ck.explain('translate:VmfViewport_gen')
+    if any(k.startswith('history:') or k in ('field:solids.len', 'field:world.solids.len') for k in keys):
+        ck.explain('instance:alias_')
+        ck.explain('tie:alias_table')
+        ck.explain('translate:VmfAlias_gen')
     if any(k.startswith('order:entities') or k.startswith('text::') for k in keys):
         ck.explain('instance:entity_blocks_read_in_file_order')
     if any('fixups' in k or 'replaceN' in k for k in keys):
         ck.explain('instance:fixup_index_written_2_read_2')
     # the composite obligation (hypotheses of c06_property) is explained when every failed component of it is
     comp = ('instance:program_ok:', 'instance:programs_all_ok', 'instance:kv_parser_sites_ok', 'instance:fields_paired:',
-            'instance:ids_preserved_when_asked:', 'instance:membership_lines_in_canonical_order:', 'instance:viewport_axis_tables_agree')
+            'instance:ids_preserved_when_asked:', 'instance:membership_lines_in_canonical_order:', 'instance:viewport_axis_tables_agree',
+            'instance:alias_')
     failed = [o for o in ck.obligations if not o['ok'] and o['name'].startswith(comp)]
     if failed and all(o.get('explained') for o in failed):
         ck.explain('instance:property_hypotheses_hold_for_todays_source')
